@@ -293,6 +293,13 @@ class Apps(object):
         # the renderers behind GzipMiddleware: what the client receives, decoded, is what the renderer produced, and
         # Content-Length is the number of bytes sent
         self.gz_app = Application([('/basic', ep, render_basic), ('/json', ep, render_json_dev)], middlewares=[GzipMiddleware()])
+        from clastic.middleware import ContextProcessor, SimpleContextProcessor
+        # the renderers behind the stock context processors: a value that is not a mutable mapping is none of their
+        # business and is rendered exactly as without them
+        self.ctx_app = Application([('/basic', ep, render_basic), ('/json', ep, render_json_dev)], resources={'zq_res': 'r'},
+                                   middlewares=[ContextProcessor(defaults={'zq_default': 1}), ])
+        self.sctx_app = Application([('/basic', ep, render_basic), ('/json', ep, render_json_dev)], resources={'zq_res': 'r'},
+                                    middlewares=[SimpleContextProcessor('zq_res', zq_default=2)])
         self.ep = ep
 
     def fresh_basic(self):
@@ -369,7 +376,25 @@ def check_value(acc, A, desc, factory, info, fresh_cache):
             if msg:
                 acc.violation('C17:%s:%s:%s' % (msg[0], gz_route.strip('/'), desc[0] if info['kind'] == 'container' else vname),
                               '%s; value %r via %s?%s behind GzipMiddleware -> %s' % (msg[1], desc, gz_route, q, res.status), case)
-    for route in ('/basic', '/basic#POST', '/basic#DELETE', '/basicdoc', '/basicexec', '/json', '/jsondev', '/stream', '/jsonp', '/jsonl1', '/streaml1', '/jsonpl1'):
+    from collections.abc import MutableMapping
+    if info['kind'] != 'generator' and not isinstance(sample_value, MutableMapping):
+        for cname, capp in (('ContextProcessor', A.ctx_app), ('SimpleContextProcessor', A.sctx_app)):
+            for c_route in ('/basic', '/json'):
+                for fmt in (None, 'html'):
+                    q = 'format=' + fmt if fmt else ''
+                    plain = wsgi.call(A.app if c_route == '/basic' else A.gz_app, c_route, 'GET', query=q)
+                    res = wsgi.call(capp, c_route, 'GET', query=q)
+                    acc.evaluated += 1
+                    acc.transitions += 2
+                    acc.validated += 1
+                    case = {'value': desc, 'route': c_route, 'format': fmt, 'accept': None, 'callback': None, 'method': 'GET', 'ctxproc': cname}
+                    if plain.raised is not None:
+                        continue
+                    if res.raised is not None or (res.code, res.body, res.header('Content-Type')) != (plain.code, plain.body, plain.header('Content-Type')):
+                        acc.violation('C17:behind-%s:%s:%s' % (cname, c_route.strip('/'), desc[0] if info['kind'] == 'container' else vname),
+                                      'value %r via %s?%s behind %s -> %s %r %r, without it %s %r' % (desc, c_route, q, cname, res.status, res.raised,
+                                                                                                (res.body or b'')[:80], plain.status, (plain.body or b'')[:80]), case)
+    for route in ('/basic', '/basic#POST', '/basic#POSTFORM', '/basic#DELETE', '/basicdoc', '/basicexec', '/json', '/jsondev', '/stream', '/jsonp', '/jsonl1', '/streaml1', '/jsonpl1'):
         route, _, method = route.partition('#')
         method = method or 'GET'
         combos = [(f, a, cb) for f in FORMATS for a in ACCEPTS for cb in (None,)] if route == '/basic' else \
@@ -377,10 +402,20 @@ def check_value(acc, A, desc, factory, info, fresh_cache):
                  [(None, a, cb) for a in (None, 'text/html') for cb in ((None, 'cb9') if route.startswith('/jsonp') else (None,))]
         if method == 'DELETE':
             combos = [(f, a, None) for f in FORMATS for a in (None, 'text/html', 'application/json')]
+        form_body = b''
+        if method == 'POSTFORM':
+            # a form whose fields happen to be named like the renderer's query parameter: the body of a request is
+            # the endpoint's business, the representation is chosen by the URL and the Accept header
+            combos = [(f, a, None) for f in (None, 'html', 'json') for a in (None, 'text/html', 'application/json')]
+            form_body = b'format=paperback&title=x&callback=cbform'
         for fmt, accept, cb in combos:
             q = '&'.join(x for x in ('format=' + fmt if fmt else '', 'callback=' + cb if cb else '') if x)
             hdrs = {'Accept': accept} if accept else None
-            res = wsgi.call(A.app, route, method, query=q, headers=hdrs)
+            if form_body:
+                hdrs = dict(hdrs or {}, **{'Content-Type': 'application/x-www-form-urlencoded'})
+                res = wsgi.call(A.app, route, 'POST', query=q, headers=hdrs, body=form_body)
+            else:
+                res = wsgi.call(A.app, route, method, query=q, headers=hdrs)
             acc.evaluated += 1
             acc.transitions += 1
             acc.validated += 1
